@@ -254,7 +254,9 @@ func sweepWorker(from, to int, memMB uint64) {
 	for i := from; i < to; i++ {
 		fmt.Fprintf(w, "B %d\n", i)
 		w.Flush()
+		cases[i].Materialise()
 		v, d, hv := runCase(&cases[i])
+		cases[i].Release()
 		fmt.Fprintf(w, "R %d %s %s %s\n", i, v, hv, strconv.Quote(d))
 		w.Flush()
 		if i%64 == 0 {
@@ -295,7 +297,7 @@ func isFail(v string) bool { return v == VPanic || v == VOOM || v == VFatal || v
 func signature(r caseResult) string {
 	d := r.Detail
 	// drop the numbers that vary between cases of one defect
-	d = regexp.MustCompile(`0x[0-9a-f]+|\[\d+\]|\d{3,}`).ReplaceAllString(d, "#")
+	d = regexp.MustCompile(`0x[0-9a-f]+|\[\d+\]|\d{3,}|(?:follow-up|length) \d+`).ReplaceAllString(d, "#")
 	if len(d) > 200 {
 		d = d[:200]
 	}
@@ -359,7 +361,9 @@ func sweepParent(outPath string, workers int, memMB uint64, deadline time.Durati
 						r.Name = cases[r.Idx].Name
 						if isFail(r.Verdict) {
 							nfail++
+							cases[r.Idx].Materialise()
 							r.Hex = hex.EncodeToString(clip(cases[r.Idx].Bytes, 256))
+							cases[r.Idx].Release()
 						}
 						results[r.Idx] = r
 					}
@@ -452,7 +456,7 @@ func runWorker(self string, from, to int, memMB uint64, deadline time.Duration) 
 					// died in the middle of case cur
 					tail := stderr.String()
 					v := VFatal
-					if strings.Contains(tail, "out of memory") || strings.Contains(tail, "cannot allocate memory") {
+					if strings.Contains(tail, "out of memory") || strings.Contains(tail, "cannot allocate memory") || strings.Contains(tail, "pthread_create failed") {
 						v = VOOM
 					}
 					rs = append(rs, caseResult{Idx: cur, Verdict: v, Handler: v, Detail: firstLines(tail, 3) + " @ " + repoFrames(tail)})
@@ -514,16 +518,25 @@ func (t *tailBuf) Write(p []byte) (int, error) {
 }
 func (t *tailBuf) String() string { t.mu.Lock(); defer t.mu.Unlock(); return string(t.b) }
 
+var fatalLine = regexp.MustCompile(`^(panic: |fatal error: |runtime: out of memory|runtime/cgo: |SIGQUIT)`)
+
+// firstLines: the lines of a Go crash report that say what happened
 func firstLines(s string, n int) string {
-	ls := strings.Split(strings.TrimSpace(s), "\n")
 	var out []string
-	for _, l := range ls {
-		if strings.HasPrefix(l, "fatal error") || strings.HasPrefix(l, "panic") || strings.HasPrefix(l, "runtime:") || len(out) == 0 {
+	for _, l := range strings.Split(strings.TrimSpace(s), "\n") {
+		if fatalLine.MatchString(l) {
 			out = append(out, strings.TrimSpace(l))
+			if len(out) >= n {
+				break
+			}
 		}
-		if len(out) >= n {
-			break
+	}
+	if len(out) == 0 {
+		ls := strings.Split(strings.TrimSpace(s), "\n")
+		if len(ls) > n {
+			ls = ls[:n]
 		}
+		out = ls
 	}
 	return strings.Join(out, " | ")
 }
@@ -570,7 +583,7 @@ func replayCase(name string, memMB uint64, deadline time.Duration) int {
 
 func listCases(w io.Writer) {
 	for _, c := range Enumerate() {
-		fmt.Fprintf(w, "%d %s hostile=%v follow=%d\n", c.Idx, c.Name, c.Hostile, len(c.Follow))
+		fmt.Fprintf(w, "%d %s hostile=%v follow=%d\n", c.Idx, c.Name, c.Hostile, c.NFollow)
 	}
 }
 
